@@ -997,6 +997,73 @@ count_rounds_up.rule_id = "C03.COUNT-ROUNDS-UP"
 
 
 # --------------------------------------------------------------------------------------------
+def exact_power(repo: Repo) -> RuleRun:
+    """'... including the neighbourhood ... of exact-integer solutions': a relation that obtains the number of cells as the quotient
+    of the logarithms of two of its own PARAMETERS (count - 1 = log T / log c) is asked, in ordinary use, for exact powers
+    (T = c ** k): the floating-point quotient then lands a rounding error below the whole number about one time in three
+    (log(1.05**2)/log(1.05) = 1.9999999999999998), and a bare truncation loses a cell. The truncated quantity must carry a small
+    positive allowance (x + tol) or be rounded at a fixed number of digits first."""
+    from ..tolerance import fold
+
+    r = RuleRun(PROP, "C03.EXACT-POWER", floor=1, what="a cell number obtained as log(parameter) / log(parameter) is truncated only with a small positive allowance: exact powers keep their cell")
+    n = 0
+
+    def is_log_of_param(e: ast.expr, params) -> bool:
+        return isinstance(e, ast.Call) and (attr_chain(e.func) or "").split(".")[-1] in ("log", "log10", "log2") and len(e.args) == 1 and isinstance(e.args[0], ast.Name) and e.args[0].id in params
+
+    for fn in relation_functions(repo):
+        if not fn.name.startswith("get_count__"):
+            continue
+        defs: Dict[str, List[ast.expr]] = {}
+        for st in walk_shallow(fn.node):
+            if isinstance(st, ast.Assign) and len(st.targets) == 1 and isinstance(st.targets[0], ast.Name):
+                defs.setdefault(st.targets[0].id, []).append(st.value)
+
+        def quotient(e: ast.expr, depth: int = 0) -> bool:
+            if isinstance(e, ast.Name) and depth < 3 and defs.get(e.id):
+                return all(quotient(v, depth + 1) for v in defs[e.id])
+            return isinstance(e, ast.BinOp) and isinstance(e.op, ast.Div) and is_log_of_param(e.left, fn.params) and is_log_of_param(e.right, fn.params)
+
+        k = 0
+        for node in ast.walk(fn.node):
+            if not (isinstance(node, ast.Call) and (attr_chain(node.func) or "").split(".")[-1] in ("int", "floor", "trunc") and node.args):
+                continue
+            arg = node.args[0]
+            allowance = None
+            core = arg
+            if isinstance(arg, ast.BinOp) and isinstance(arg.op, ast.Add):
+                for a, b in ((arg.left, arg.right), (arg.right, arg.left)):
+                    v = fold(repo, fn.module, b)
+                    if v is not None:
+                        core, allowance = a, v
+                        break
+            elif isinstance(arg, ast.BinOp) and isinstance(arg.op, ast.Sub) and fold(repo, fn.module, arg.right) is not None:
+                core, allowance = arg.left, -fold(repo, fn.module, arg.right)
+            rounded = isinstance(arg, ast.Call) and (attr_chain(arg.func) or "").split(".")[-1] in ("round", "around") and len(arg.args) >= 2
+            if rounded:
+                core = arg.args[0]
+            if not quotient(core):
+                continue
+            n += 1
+            r.check(
+                rounded or (allowance is not None and 0 < allowance <= 1e-3),
+                fn,
+                f"'{ast.unparse(node)[:50]}' truncates a quotient of logarithms of parameters with an allowance",
+                f"{fn.name}: '{ast.unparse(node)[:70]}' truncates log(parameter) / log(parameter) as it comes: for an exact power - Chop(total_expansion=1.05**2, c2c_expansion=1.05) - the quotient is "
+                "1.9999999999999998 and the chop gets 2 cells instead of 3 (104 of 342 pairs c ** (n - 1), n = 2..39, lose a cell): blockMesh then realises the total expansion with the wrong "
+                "cell-to-cell ratio, although the two given values have an exact solution",
+                node,
+                key=f"truncation#{k}",
+            )
+            k += 1
+    r.require(n >= 1, "no count relation truncates a quotient of logarithms of its parameters any more (get_count__total_expansion__c2c_expansion re-written?)")
+    return r
+
+
+exact_power.rule_id = "C03.EXACT-POWER"
+
+
+# --------------------------------------------------------------------------------------------
 def count_integral(repo: Repo) -> RuleRun:
     """'the computed cell count is an integer >= 1': whatever number the user hands in as count (a quotient length / size is a
     float), Chop stores the whole number of cells that is written - the relations then solve for exactly that count. Abstract
@@ -1323,4 +1390,4 @@ def section_ratio(repo: Repo) -> RuleRun:
 section_ratio.rule_id = "C03.SECTION-RATIO"
 
 
-RULES = [registry_agreement, closure, invert_complete, validation_siblings, dimensions, bracket_siblings, unit_ratio_tests, copy_well_posed, no_stale_lazy_cache, reject_not_repair, no_memo, solver_tolerance, no_rounding, ratio_rejection, count_rounds_up, count_integral, shortcut_exact, single_cell, calculate_pure, section_ratio]
+RULES = [registry_agreement, closure, invert_complete, validation_siblings, dimensions, bracket_siblings, unit_ratio_tests, copy_well_posed, no_stale_lazy_cache, reject_not_repair, no_memo, solver_tolerance, no_rounding, ratio_rejection, count_rounds_up, count_integral, shortcut_exact, single_cell, calculate_pure, section_ratio, exact_power]
